@@ -625,7 +625,7 @@ class FmtStr:
         @no_type_check
         def func_help(*args, **kwargs):
             result = getattr(self.s, att)(*args, **kwargs)
-            if isinstance(result, (bytes, str)):
+            if isinstance(result, str):
                 return fmtstr(result, **self.shared_atts)
             elif isinstance(result, list):
                 return [fmtstr(x, **self.shared_atts) for x in result]
